@@ -683,3 +683,11 @@ PROPS["C01"]["also_drivers"] = ["C08"]
 for _p in ("C01", "C03", "C06", "C09"):
     PROPS[_p]["also_drivers"] = PROPS[_p].get("also_drivers", []) + ["C05"]
 PROPS["C06"]["also_drivers"] = PROPS["C06"]["also_drivers"] + ["C12"]
+# C05 "in order": the order in which queued results of a multishot operation are handed out is
+# C02's driver (seeds C02-a, C05-f). C13 "same bytes as read(2)" for a ReadBuf that is read into
+# again after it was emptied is C15's driver (real kernel; seeds C15-c, C13-f). C12's "reclaims
+# every abandoned operation's state" for two-step operations dropped at every point of their
+# life cycle is the history driver with C06's weights (seeds C06-b, C12-c).
+PROPS["C05"]["also_drivers"] = ["C02"]
+PROPS["C13"]["also_drivers"] = PROPS["C13"]["also_drivers"] + ["C15"]
+PROPS["C12"]["also_drivers"] = ["C06"]
